@@ -58,6 +58,7 @@ def native_histories(run, n, limit, plus, iters):
 def main(run):
     pkg = RS.regret_package()
     run.pkg = pkg
+    run.auto_fallback_tol = 1e-5        # the minimiser stores float32: natively "sums to one" holds to single precision
     run.under_contract(pkg, "regret", ["metacoalition_ids_by_coalition_size", "coalitions_up_to", "get_coalition_player_id_map",
                                        "GameRegretMinimizer.__init__", "GameRegretMinimizer.save", "GameRegretMinimizer.load",
                                        "GameRegretMinimizer.get_metacoalition_id", "GameRegretMinimizer.regret_matching_strategy",
